@@ -127,6 +127,21 @@ func genRec(r *rand.Rand) (agg.Rec, want) {
 		return net.IPv4(byte(1+r.IntN(223)), byte(r.IntN(256)), byte(r.IntN(256)), byte(r.IntN(256))).To4()
 	}
 	src, dst, cluster := ip(), ip(), ip()
+	zero := func() net.IP {
+		if v6 {
+			return make(net.IP, 16)
+		}
+		return net.IPv4zero.To4()
+	}
+	if r.IntN(8) == 0 { // the unspecified address is a value like any other
+		cluster = zero()
+	}
+	if r.IntN(16) == 0 {
+		src = zero()
+	}
+	if r.IntN(16) == 0 {
+		dst = zero()
+	}
 	k.Src, k.Dst = src.String(), dst.String()
 	rec := agg.Rec{Key: k, Node: 'B', FlowType: uint8(1 + r.IntN(4)), Start: r.Uint32(), End: r.Uint32(), EndReason: uint8(r.IntN(4)), TCPState: "ESTABLISHED",
 		Str: map[string]string{}, U8: map[string]uint8{}, U16: map[string]uint16{}, I32: map[string]int32{}, IP: map[string]net.IP{}}
